@@ -387,8 +387,8 @@ fn algebra_sweep() {
         let neg = LevMarProblemBuilder::new(tiny()).observations(y.clone()).epsilon(-1e-3).build().unwrap();
         let dflt = LevMarProblemBuilder::new(tiny()).observations(y.clone()).build().unwrap();
         let c = |pr: &varpro::solvers::levmar::LevMarProblem<varpro::model::SeparableModel<f64>, false, false>| pr.linear_coefficients().map(|c| c.into_owned());
-        if c(&pos) != c(&neg) { f.report("C18 C01", "a negative singular-value threshold does not act like its absolute value", format!("{:?} vs {:?}", c(&pos), c(&neg))); }
-        if c(&pos) == c(&dflt) { f.report("C18 C01", "a supplied singular-value threshold has no effect (same coefficients as with the default)", String::new()); }
+        if c(&pos) != c(&neg) { f.report("C18", "a negative singular-value threshold does not act like its absolute value", format!("{:?} vs {:?}", c(&pos), c(&neg))); }
+        if c(&pos) == c(&dflt) { f.report("C01", "a supplied singular-value threshold has no effect (same coefficients as with the default)", String::new()); }
     }
     fit_cases(&mut f);
     fault_cases(&mut f);
